@@ -329,25 +329,25 @@ func judge(id, tier, repo, verif string, cfg Config, p *Prog, loadErr error, t0 
 		Coverage: map[string]interface{}{
 			"explanation": "STATIC ANALYSIS of /repo's current source (nothing executed). DECIDED (structural necessary conditions of the property): " + def.Decided +
 				" NOT DECIDED (run-time quantities outside any sound static argument in reach): " + def.NotDecided,
-			"evaluations":         len(obs),
-			"distinct_nontrivial": nontrivial,
-			"rule":                "one evaluation = one rule instance (rule id + construct: a call site, field access, return, table row) enumerated from the type-checked SSA program and call graph; distinct = distinct rule+construct keys, instance-floor meta obligations excluded",
-			"obligations":         len(obs),
-			"discharged":          nOK,
-			"known_findings":      nKnown,
-			"violated":            nBad,
-			"undecided":           nUndec,
-			"samples":             samples,
-			"rules":               rstats,
-			"configurations":      configs,
-			"packages_loaded":     npkgs,
-			"repo_functions":      nfuncs,
-			"repo_ssa_instrs":     ninstr,
+			"evaluations":          len(obs),
+			"distinct_nontrivial":  nontrivial,
+			"rule":                 "one evaluation = one rule instance (rule id + construct: a call site, field access, return, table row) enumerated from the type-checked SSA program and call graph; distinct = distinct rule+construct keys, instance-floor meta obligations excluded",
+			"obligations":          len(obs),
+			"discharged":           nOK,
+			"known_findings":       nKnown,
+			"violated":             nBad,
+			"undecided":            nUndec,
+			"samples":              samples,
+			"rules":                rstats,
+			"configurations":       configs,
+			"packages_loaded":      npkgs,
+			"repo_functions":       nfuncs,
+			"repo_ssa_instrs":      ninstr,
 			"callgraph_repo_edges": cgEdges,
-			"checker_cmd":         "./run.sh check " + id + " " + tier,
-			"trusted_base":        baseTrusted,
-			"exhaustive":          false,
-			"technique":           def.Technique,
+			"checker_cmd":          "./run.sh check " + id + " " + tier,
+			"trusted_base":         baseTrusted,
+			"exhaustive":           false,
+			"technique":            def.Technique,
 		},
 	}
 	if p != nil {
